@@ -66,3 +66,9 @@ impl SubSpecImpl<Action> for Action {
 }
 impl core::ops::Sub for Action { type Output = Action;
 	fn sub(self, rhs: Action) -> (r: Action) ensures sv(r) == clamp255(sv(self) - sv(rhs)) { Action::sub(self, rhs) } }
+// `&T` (T: OHLCV) passed where `&dyn OHLCV` is expected: the unsizing coercion keeps every observation (R10)
+pub uninterp spec fn as_dyn_spec<T: OHLCV>(c: &T) -> &DynOHLCV;
+#[verifier::external_body]
+pub fn as_dyn<T: OHLCV>(c: &T) -> (r: &DynOHLCV)
+	ensures r == as_dyn_spec(c), r.open_s() == c.open_s(), r.high_s() == c.high_s(), r.low_s() == c.low_s(), r.close_s() == c.close_s(), r.volume_s() == c.volume_s()
+{ unimplemented!() }
